@@ -299,7 +299,15 @@ impl ClusterHandler for AdminCommHandler {
             // (its sessions are purged by `FailSafe::expire` itself)
             #[cfg(feature = "case-resumption")]
             if let Some(fab_idx) = removed_fabric {
-                state.resumption.remove_for_fabric(fab_idx);
+                if let Err(e) = state
+                    .resumption
+                    .remove_for_fabric_persist(fab_idx, ctx.kv())
+                {
+                    error!(
+                        "Failed to persist the removal of the resumption records of fabric {}: {:?}",
+                        fab_idx, e
+                    );
+                }
                 ctx.exchange()
                     .matter()
                     .transport()
